@@ -41,6 +41,8 @@ func (o Op) String() string {
 
 // Engine owns one database, the stores, and the reference model.
 type Engine struct {
+	idBuf, otherBuf []byte // reused id buffers of the single-link calls
+
 	C    *core.Ctx
 	Cfg  Config
 	Sc   *schema.Schema
@@ -149,12 +151,16 @@ func (e *Engine) Apply(ctx boltz.MutateContext, op *Op) error {
 	case "addlinks":
 		return st.Links[linkField(op.Store)].AddLinks(tx, op.Id, op.Others...)
 	case "addlink":
-		_, err := st.Links[linkField(op.Store)].AddLink(tx, []byte(op.Id), []byte(op.Others[0]))
+		// single-link calls get their ids in buffers the caller uses again for the next call (ids of equal length
+		// overwrite each other in place), like a caller decoding ids from a stream would
+		e.idBuf, e.otherBuf = append(e.idBuf[:0], op.Id...), append(e.otherBuf[:0], op.Others[0]...)
+		_, err := st.Links[linkField(op.Store)].AddLink(tx, e.idBuf, e.otherBuf)
 		return err
 	case "removelinks":
 		return st.Links[linkField(op.Store)].RemoveLinks(tx, op.Id, op.Others...)
 	case "removelink":
-		_, err := st.Links[linkField(op.Store)].RemoveLink(tx, []byte(op.Id), []byte(op.Others[0]))
+		e.idBuf, e.otherBuf = append(e.idBuf[:0], op.Id...), append(e.otherBuf[:0], op.Others[0]...)
+		_, err := st.Links[linkField(op.Store)].RemoveLink(tx, e.idBuf, e.otherBuf)
 		return err
 	case "setlinks":
 		return st.Links[linkField(op.Store)].SetLinks(tx, op.Id, append([]string{}, op.Others...))
